@@ -239,6 +239,8 @@ def _r3_levels(run):
     f = project.fn(BLD + ".Builder.toast_base")
     run.note_func(f)
     evb = sym.make_evaluator(project, BLD, [])
+    evb.self_class = BLD + ".Builder"            # describing the pyramid may be a private helper method of the builder
+    evb.no_inline = ("cascade", "write_index_rel_wtml", "create_wtml_folder", "make_thumbnail_from_other", "set_name")
     r = evb.run(f.node)
     depth = ("sym", f.params()[2])
     st = [e for e in r.events if e.kind == "store" and e.term[1][0][0] == "attr" and e.term[1][0][2] == "tile_levels"]
@@ -321,6 +323,33 @@ def _r5_fits_tiler(run):
         for cc in cfg.calls_at(n):
             if callee_attr(cc) in POPULATE_OTHER | POPULATE_BUILDER:
                 pops.add(n.id)
+    # `if self._reuse_existing(...): return`: a helper that answers "reused" (a true value) only after it has restored the builder
+    # fills it on exactly the paths where its caller believes it -- the true branch of the test starts filled
+    for n in cfg.nodes:
+        if n.kind != "if":
+            continue
+        t = n.ast.test
+        neg = False
+        while isinstance(t, ast.UnaryOp) and isinstance(t.op, ast.Not):
+            neg, t = not neg, t.operand
+        if not isinstance(t, ast.Call):
+            continue
+        h = common.resolve_callee(project, f, t)
+        if h is None or h.module.kind != "py":
+            continue
+        hc = CFG(h.node)
+        hpops = {m.id for m in hc.nodes for cc in hc.calls_at(m) if callee_attr(cc) in POPULATE_OTHER | POPULATE_BUILDER}
+        rets = [m for m in hc.nodes if m.kind == "return"]
+        truthy = [m for m in rets if m.ast.value is not None and not (isinstance(m.ast.value, ast.Constant) and not m.ast.value.value)]
+        if not hpops or not truthy:
+            continue
+        unfilled = hc.reachable(hc.entry.id, avoid=hpops, skip_labels=("exc",))
+        if any(m.id in unfilled for m in truthy):
+            continue            # it can answer "reused" without having filled anything
+        run.note_func(h)
+        for j, lab in cfg.succ[n.id]:
+            if lab == ("F" if neg else "T"):
+                pops.add(j)
     if not assign_b:
         run.undecided("C17.R5", f, None, "FitsTiler.tile never assigns self.builder", kind="no-builder")
         return
@@ -339,8 +368,10 @@ def _r5_fits_tiler(run):
                      "back (tile levels 0, no astrometry) disagrees with the index_rel.wtml already in the directory" % (bad.line, conds), kind="return-unfilled-builder")
     else:
         run.holds("C17.R5", f, assign_b[0].ast, "every return after constructing the builder passes a tiling step, the HiPS properties loader or the index loader")
-    # override: the stale directory is removed before tiling
+    # override: the stale directory is removed before tiling (possibly in a private helper of the tiler)
     ev = sym.make_evaluator(project, FT, [])
+    ev.self_class = FT + ".FitsTiler"
+    ev.no_inline = ("_tile_tan", "_tile_toast", "_tile_hips", "_load_builder_from_index", "_copy_hips_properties_to_builder", "_default_out_dir")
     r = ev.run(f.node)
     rm = [e for e in r.events if e.kind == "call" and show(e.term[1]) in ("shutil.rmtree",)]
     ok = False
